@@ -3,9 +3,9 @@ package main
 import (
 	"fmt"
 	"math/big"
-	"regexp"
 	"os"
 	"path/filepath"
+	"regexp"
 	"strings"
 )
 
